@@ -51,6 +51,12 @@ type cst struct {
 type cref struct {
 	trace  []string
 	unspec string
+	// a try block left by return/break/continue and an otherwise clause: the
+	// statement leaves open whether otherwise runs ("only when the try block
+	// raised nothing"), but not that the pending return/break/continue survives.
+	// Both readings are computed (otherOnCtl) and either is accepted.
+	otherOnCtl bool
+	otherCtl   bool
 }
 
 func (r *cref) exec(list []*cst) sig {
@@ -105,7 +111,12 @@ func (r *cref) one(s *cst) sig {
 			}
 		default:
 			if s.hasOther {
-				r.unspec = "otherwise with a try block left by return/break/continue"
+				r.otherCtl = true
+				if r.otherOnCtl {
+					if g2 := r.exec(s.other); g2.kind != "" {
+						g = g2
+					}
+				}
 			}
 		}
 		if s.hasFin {
@@ -399,6 +410,22 @@ func c04Run(c *Ctx, prog []*cst, conds []bool) {
 	wantErr := ""
 	if g.kind == "error" {
 		wantErr = g.etype
+	}
+	if (got != want || gotErr != wantErr) && ref.otherCtl {
+		// second admissible reading: otherwise also runs after return/break/continue
+		refB := &cref{otherOnCtl: true}
+		gB := refB.exec(prog)
+		if refB.unspec != "" || gB.kind == "break" || gB.kind == "continue" || gB.kind == "return" {
+			c.Skip()
+			return
+		}
+		wantErrB := ""
+		if gB.kind == "error" {
+			wantErrB = gB.etype
+		}
+		if got == strings.Join(refB.trace, " ") && gotErr == wantErrB {
+			g, want, wantErr = gB, got, wantErrB
+		}
 	}
 	if got != want || gotErr != wantErr {
 		c.Viol(c04Key(prog, got, want, gotErr, wantErr), fmt.Sprintf("trace [%s] error %q, expected trace [%s] error %q:\n%s", got, gotErr, want, wantErr, src), src)
